@@ -76,6 +76,10 @@ def mods():
     return M
 
 
+# text -> text helpers that are an inner step of a rule which checks their result (not rules: what they return never leaves the rule unchecked)
+INNER_STEPS = {("fixes", "_limit_blank_lines")}
+
+
 def rule_functions():
     """{(module short name, function name): function} for every `source -> str` style function."""
     out = {}
@@ -96,6 +100,8 @@ def rule_functions():
             if not params or params[0] != "source":
                 continue
             if inspect.isgeneratorfunction(real):
+                continue
+            if (short, name) in INNER_STEPS:
                 continue
             out[(short, name)] = obj
     return out
